@@ -122,7 +122,7 @@ def main():
                            '/verif/harness/qvimport.py (recompiles the working tree on every run; true division guarded '
                            'against the decimalfp defect). The tracer for the repository\'s own suite is a pytest plugin: '
                            'QUANTITY_VERIF=1 QTRACE_FILE=<ndjson> PYTHONPATH=/verif/harness pytest -p qtrace_pytest '
-                           '(wraps the public operators of Quantity/Unit at import; with the variable unset it does nothing)'),
+                           '(wraps the public operators of Quantity/Unit and of ExchangeRate at import - qtrace.py, qtrace_money.py; with the variable unset it does nothing)'),
                    baseline_off_cmd=BASE, source_commits=[], add_only=True),
         engines=[dict(name='tlc', path='/usr/local/bin/tlc', serves_properties=sorted(CHECKS),
                       kind_free_text='TLC 1.8 explicit-state model checker: model checking of the TLA+ specs in /verif/spec '
